@@ -800,6 +800,8 @@ pub fn run_c13(a: &Args) {
         let mut rng = Rng::new(mix(a.seed ^ 0xC13, idx));
         let wcl = [WClass::Unweighted, WClass::Exact, WClass::ExactWide, WClass::Generic];
         let mut stars = false;
+        let mut tiny_gain = false;
+        let mut tripled = false;
         let case = match idx % 10 {
             0 | 1 => {
                 let specs = *rng.pick(&kinds);
@@ -824,6 +826,25 @@ pub fn run_c13(a: &Args) {
                     e.2 = rng.range(1, 5) as f64;
                 }
                 c
+            }
+            8 if idx % 30 == 8 => {
+                // one edge of weight 10^5..10^9 beside a unit-weight path or cycle: the total weight
+                // is dominated by the heavy edge, so every merge on the unit part gains between
+                // 1e-10 and 1e-4 - the region of the default stopping threshold
+                tiny_gain = true;
+                let specs = Specs::kind(rng.chance(1, 4), false, false);
+                let len = rng.range(8, 24);
+                let names: Vec<String> = (0..len + 2).map(|i| format!("u{}", i)).collect();
+                let mut edges: Vec<(usize, usize, f64)> = vec![(len, len + 1, f64::powi(10.0, rng.range(5, 9) as i32))];
+                for i in 1..len {
+                    edges.push((i - 1, i, 1.0));
+                }
+                if rng.coin() {
+                    edges.push((len - 1, 0, 1.0));
+                }
+                rng.shuffle(&mut edges);
+                ctx::count("reach:gains-near-the-default-threshold");
+                GCase { specs, names, edges, family: "heavy-edge-beside-unit-path", wclass: WClass::Exact }
             }
             8 => {
                 // one to three stars whose leaves hang on edges of very unequal weight, next to a
@@ -863,6 +884,25 @@ pub fn run_c13(a: &Args) {
                 rng.shuffle(&mut edges);
                 GCase { specs, names, edges, family: "stars-with-unequal-leaves-plus-component", wclass: WClass::Exact }
             }
+            9 if idx % 20 == 9 => {
+                // a symmetric (tie-rich) shape as a multigraph: every edge becomes three parallel
+                // edges weighing 0.1, 0.2 and 0.3 in rotating order, so that weights which "should"
+                // be equal differ in their last bit (0.6 vs 0.6000000000000001)
+                tripled = true;
+                let mut c = crate::props_gen::tie_rich_case(&mut rng, idx);
+                const PERMS: [[f64; 3]; 4] = [[0.1, 0.2, 0.3], [0.3, 0.2, 0.1], [0.2, 0.3, 0.1], [0.3, 0.1, 0.2]];
+                let mut e3 = vec![];
+                for (i, (u, v, _)) in c.edges.iter().enumerate() {
+                    for w in PERMS[i % 4] {
+                        e3.push((*u, *v, w));
+                    }
+                }
+                c.edges = e3;
+                c.specs.multi = true;
+                c.wclass = WClass::Generic;
+                ctx::count("reach:multigraph-with-three-inexact-parallel-edges-per-pair");
+                c
+            }
             _ => random_case(&mut rng, 2, if a.thorough { 64 } else { 40 }, &kinds, &wcl),
         };
         if case.edges.is_empty() {
@@ -872,7 +912,7 @@ pub fn run_c13(a: &Args) {
         let d = Dense::from_graph(&g);
         let kind = kind_class(&g);
         let n = d.n;
-        let weighted = (case.wclass.weighted() && rng.chance(3, 4)) || stars;
+        let weighted = (case.wclass.weighted() && rng.chance(3, 4)) || stars || tiny_gain || tripled;
         let gamma = if stars {
             ctx::count("reach:stars-with-unequal-leaves-at-resolution-above-1");
             if rng.coin() { *rng.pick(&[1.3, 1.5, 1.7, 2.0]) } else { 1.1 + 0.9 * rng.f64() }
@@ -890,18 +930,24 @@ pub fn run_c13(a: &Args) {
             1 => 1u64 << 63,
             _ => rng.below(1000) as u64,
         };
-        let opts = json!({"weighted": weighted, "resolution": gamma, "threshold": threshold, "seed": seed.to_string()});
+        // the default threshold (None) in one run in six, and always on the tiny-gain shapes
+        let threshold_arg: Option<f64> = if tiny_gain || rng.chance(1, 6) { None } else { Some(threshold) };
+        let gamma = if tiny_gain { 1.0 } else { gamma };
+        if threshold_arg.is_none() {
+            ctx::count("reach:default-threshold");
+        }
+        let opts = json!({"weighted": weighted, "resolution": gamma, "threshold": threshold_arg, "seed": seed.to_string()});
         ctx::case_desc(json!({"graph": case.json(), "options": opts}));
         let fail = |func: &str, class: &str, detail: Value| {
             ctx::violation(&format!("C13|{}|{}|{}", func, class, kind), &format!("{}: {}", func, class), json!({"detail": detail, "options": opts, "graph": case.json()}));
         };
         // bounded progress on logical steps
         let sweep_budget = 200 + 20 * n as u64;
-        graphrs::verif_hooks::set_budget("louvain_sweep", Some(sweep_budget));
-        graphrs::verif_hooks::set_budget("louvain_level", Some(n as u64 + 8));
+        crate::ctx::set_budget("louvain_sweep", Some(sweep_budget));
+        crate::ctx::set_budget("louvain_level", Some(n as u64 + 8));
         graphrs::verif_hooks::take_ticks("louvain_sweep");
         graphrs::verif_hooks::take_ticks("louvain_level");
-        let res = guard("louvain_partitions", || louvain::louvain_partitions(&g, weighted, Some(gamma), Some(threshold), Some(seed)));
+        let res = guard("louvain_partitions", || louvain::louvain_partitions(&g, weighted, Some(gamma), threshold_arg, Some(seed)));
         let sweeps = graphrs::verif_hooks::take_ticks("louvain_sweep");
         let levels_ticks = graphrs::verif_hooks::take_ticks("louvain_level");
         ctx::eval(1);
@@ -1009,7 +1055,7 @@ pub fn run_c13(a: &Args) {
         graphrs::verif_hooks::take_ticks("louvain_sweep");
         graphrs::verif_hooks::take_ticks("louvain_level");
         ctx::eval(1);
-        match guard("louvain_communities", || louvain::louvain_communities(&g, weighted, Some(gamma), Some(threshold), Some(seed))) {
+        match guard("louvain_communities", || louvain::louvain_communities(&g, weighted, Some(gamma), threshold_arg, Some(seed))) {
             Err(c) => fail("louvain_communities", &c.class(), c.json()),
             Ok(Err(e)) => fail("louvain_communities", &format!("error:{}", err_name(&e.kind)), json!(null)),
             Ok(Ok(last)) => {
@@ -1018,8 +1064,8 @@ pub fn run_c13(a: &Args) {
                 }
             }
         }
-        graphrs::verif_hooks::set_budget("louvain_sweep", None);
-        graphrs::verif_hooks::set_budget("louvain_level", None);
+        crate::ctx::set_budget("louvain_sweep", None);
+        crate::ctx::set_budget("louvain_level", None);
         ctx::nontrivial(mix(case.hash(), fnv(opts.to_string().as_bytes())));
         ctx::sample_tagged(&format!("{}-{}", case.specs.kind_label(), case.family), || json!({"graph": case.json(), "options": opts, "levels": levels.len(), "sweeps": sweeps}));
     }
